@@ -127,6 +127,30 @@ pub fn rtx(tier: Tier, max_retx: usize, grown: bool, depth: usize) -> Driver {
     Driver { name: format!("rtx-retx{max_retx}-{}", if grown { "grown" } else { "fresh" }), cfg, prefix, alphabet, depth, state_cap: tier.pick(400_000, 6_000_000) }
 }
 
+/// Right after a fast recovery has ended (the ACK that ends it releases new data): duplicate
+/// ACKs of *that* ACK must count from it.
+pub fn rtx_after_fast_recovery(tier: Tier, depth: usize) -> Driver {
+    let mut d = rtx(tier, 5, false, depth);
+    let def = WndSpec::Default;
+    d.name = "rtx-after-fast-recovery".into();
+    d.prefix = vec![
+        Act::Write(3 * MSS),
+        state(AckSpec::Cur, def, SackSpec::None),
+        state(AckSpec::Cur, def, SackSpec::None),
+        state(AckSpec::Cur, def, SackSpec::None),
+        state(AckSpec::All, def, SackSpec::None),
+    ];
+    d.alphabet = vec![
+        state(AckSpec::Cur, def, SackSpec::None),
+        state(AckSpec::Plus(1), def, SackSpec::None),
+        state(AckSpec::All, def, SackSpec::None),
+        state(AckSpec::Cur, def, SackSpec::FirstN(1)),
+        Act::Write(3 * MSS),
+        Act::Tick,
+    ];
+    d
+}
+
 /// Acknowledgements that ride on the peer's own data and FIN packets (in order, ahead of a gap,
 /// duplicate) instead of on ST_STATE.
 pub fn rtx_piggyback(tier: Tier, depth: usize) -> Driver {
@@ -484,6 +508,7 @@ pub fn all_drivers(tier: Tier) -> Vec<Driver> {
     v.push(rtx(tier, 5, true, 7));
     v.push(rtx_after_recovery_rto(tier, 7));
     v.push(rtx_piggyback(tier, 6));
+    v.push(rtx_after_fast_recovery(tier, 6));
     v.push(nagle_recovery(tier, 6));
     v.push(tx_slowstart(tier, 6));
     v.push(tx_window_mtu(tier, 6));
